@@ -187,10 +187,16 @@ func VerifC12_KLayout() {
 		{"[", "1", "-2", "]", "(", ")"},
 		{"(", "--", ")", "#^x"},
 		{"(", "a:b", ":k", "(", ")", ")"},
+		{"(", "-", "1", "2", ")"},
+		{"(", "-", "x", "-", "1.5", ")"},
+		{"(", "+", "1", "'", "-", ")"},
 	}
 	si := vndChoice("skeleton", len(skeletons))
 	toks := skeletons[si]
-	gaps := []string{" ", "\n", "\t ", " ;c\n", "\n\n", ""}
+	// one whitespace byte left to the solver: any of the six ASCII space characters
+	ws := vndByte("ws")
+	vAssume(vOr(vOr(ws == ' ', ws == '\t'), vOr(vOr(ws == '\n', ws == '\r'), vOr(ws == '\f', ws == '\v'))))
+	gaps := []string{" ", "\n", string([]byte{ws}), " ;c\n", "\r\n", ""}
 	var sb, ref strings.Builder
 	for i, t := range toks {
 		if i > 0 {
